@@ -591,6 +591,63 @@ func ruleSkipGroup(c *Ctx) {
 			}
 		}
 	})
+	// an arm that advances the scan index must go straight back to the loop head: reaching the
+	// bulk-move flush (SetOpCode/SetC relative to pc) with the advanced index mis-places OP_MOVEN
+	setOp, setC := p.Fn("lua", "(*codeStore).SetOpCode"), p.Fn("lua", "(*codeStore).SetC")
+	hdr := pcPhi.(*ssa.Phi).Block()
+	nadv := 0
+	// values that flow back into the scan index (through phis)
+	flows := map[ssa.Value]bool{}
+	var fl func(v ssa.Value, d int)
+	fl = func(v ssa.Value, d int) {
+		if flows[v] || d > 6 {
+			return
+		}
+		flows[v] = true
+		switch x := v.(type) {
+		case *ssa.Phi:
+			for _, e := range x.Edges {
+				fl(e, d+1)
+			}
+		case *ssa.BinOp:
+			if x.Op == token.ADD {
+				fl(x.X, d+1) // pc = (pc + n) + 1
+			}
+		}
+	}
+	for _, e := range pcPhi.(*ssa.Phi).Edges {
+		fl(e, 0)
+	}
+	allInstrs(pc, func(in ssa.Instruction) {
+		b, ok := in.(*ssa.BinOp)
+		if !ok || b.Op != token.ADD || !g.Live(in) {
+			return
+		}
+		if stripConv(b.X) != pcPhi && stripConv(b.Y) != pcPhi {
+			return
+		}
+		if !flows[b] {
+			return // an index computation, not an update of the scan index
+		}
+		// only case arms (conditioned on the opcode), not the loop's own increment
+		inCase := false
+		for _, cd := range g.CondsAtInstr(in) {
+			if eq, ok := cd.V.(*ssa.BinOp); ok && eq.Op == token.EQL && cd.Sense {
+				if _, ok := constInt(eq.Y); ok {
+					inCase = true
+				}
+			}
+		}
+		if !inCase {
+			return
+		}
+		nadv++
+		blk, i := after(in)
+		reaches := g.walk(blk, i, func(x ssa.Instruction) bool { return x.Block() == hdr && x == hdr.Instrs[0] }, func(x ssa.Instruction) bool {
+			return isCallTo(x, setOp) || isCallTo(x, setC)
+		})
+		c.check(!reaches, R, fmt.Sprintf("patchCode:advance-then-continue#%d", nadv), p.ipos(in), "after skipping trailing words the scan continues with the next instruction without touching the pending MOVE run", "after advancing past trailing words patchCode falls into the bulk-move flush with the advanced index: OP_MOVEN is written one word late and the group swallows the following instruction")
+	})
 	done := map[*ssa.Function]bool{}
 	for _, o := range t.Ops {
 		if o.Handler == nil || done[o.Handler] {
